@@ -9,46 +9,46 @@ CHECKS={
    text="Generated programs of the reference grammar (every production the parser implements, alternative spellings of the same meaning, lists up to 33 entries, strings up to 70 000 characters and with $ escapes in either faithful reading, contextual words as names) must parse to exactly the library the generator built; all 225 operator pairs x both association shapes and 225 triples enumerated. Finds dropped / reordered / re-associated / renamed constructs; cannot prove absence.",
    note="Trusted: the harness' printer and AST generator (second implementation of IEC Annex B) and the dsl's derived PartialEq (spans ignored; identifier case checked separately by a visitor walk). Information the dsl types cannot represent is not judged.", ref="DESIGN.md §3 C01"),
  "C02": dict(cat="fault_enumeration", technique=T+": valid-by-construction generator + generation-time fault planter (16 rule kinds, every site), oracle = expected verdict / code"+F+"",
-   text="Valid units must analyse Ok; the same unit with exactly one planted documented Fails shape (every applicable site for small units) must fail with the rule's published code (substitution and insertion faults, names that exist elsewhere, a third of the units in random letter case per occurrence); double faults must fail; the binary agrees.",
+   text="Valid units must analyse Ok; the same unit with exactly one planted documented Fails shape (every applicable site for small units) must fail with the rule's published code (substitution and insertion faults, names that exist elsewhere, a third of the units in random letter case per occurrence; every elementary type but the strings, derived types as array elements, variable types and function results, names local to a configuration reused by a second one, instances handed in by the caller); double faults must fail; the binary agrees.",
    note="Trusted: the harness' model of which programs satisfy the documented rules (conservative: P9999 constructs avoided). P9999-only outcomes are trivial, not successes.", ref="DESIGN.md §3 C02"),
  "C03": dict(cat="fault_enumeration", technique=T+": faulty unit x companion files, all file orders, same-name companions; oracle = set must fail"+F+"",
-   text="Every placement of a file that does not tokenize / parse or holds a self-contained planted fault alone and among 0-4 companions (valid ones, ones that re-declare the faulty name, not-implemented declarations, comment headers with OSCAT markers) in every file order must make Project::semantic and `ironplcc check` fail; a 15-cell cure grid states which companions may cure an undeclared name and which never.",
+   text="Every placement of a file that does not tokenize / parse or holds a self-contained planted fault alone and among 0-4 companions (valid ones, ones that re-declare the faulty name, not-implemented declarations, comment headers with OSCAT markers) in every file order must make Project::semantic and `ironplcc check` fail; a 20-cell cure grid states which companions may cure an undeclared name and which never (also: a plain global next to a constant one, a TYPE named like a standard function block).",
    note="Trusted: F alone fails (verified per case). Faults whose diagnosis needs other declarations are exempt as in the property.", ref="DESIGN.md §3 C03"),
  "C04": dict(cat="exploration", technique=T+"in worker processes + libFuzzer target (thorough): bytes, token soup, token-mutated programs, extreme literals; oracle = no panic / abort / CPU overrun",
-   text="Inputs <= 64 KiB / nesting <= 12 run through tokenize, parse, analyze, render, re-parse in worker processes: a panic, a death by signal or > 20 CPU s (3/3 reproduction) is a violation. Thorough adds a coverage-guided libFuzzer campaign over the same in-target oracle.",
+   text="Inputs <= 64 KiB / nesting <= 12 run through tokenize, parse, analyze, render, re-parse in worker processes: a panic, a death by signal (4 GiB of address space per worker) or > 20 CPU s (3/3 reproduction) is a violation; the extra re-parse of the rendering runs only within the nesting bound. Thorough adds a coverage-guided libFuzzer campaign over the same in-target oracle.",
    note="Hangs that need more CPU than the budget or inputs beyond the stated bounds are out of reach. Budget is CPU time measured by the worker, never wall clock.", ref="DESIGN.md §3 C04"),
  "C05": dict(cat="exploration", technique=T+": harness-printed texts with known lexeme table; oracle = recomputed line/column, source[span]==text, marker positions of planted faults"+F+"",
-   text="Tokens must tile the source with recomputed line/column; every Id must carry file id and the span of its own spelling and coincide with the harness' lexeme table; primary labels of planted faults must cover the marker the planter wrote; the file:L:C shown by check / echo / tokenize and the LSP range.start for a sample of planted faults, syntax errors and lexical errors must be the recomputed position of the label start.",
+   text="Tokens must tile the source with recomputed line/column; every Id must carry file id and the span of its own spelling and coincide with the harness' lexeme table; primary labels of planted faults must cover the marker the planter wrote; the file:L:C shown by check / echo / tokenize and the LSP range.start for a sample of planted faults, syntax errors and lexical errors must be the recomputed position of the label start; for every diagnostic met (planted faults, name clashes over 49 pairs of declaration forms, alias chains that end nowhere) every label names a file of the set, lies in it on character and word boundaries, and a one-word primary label is the name the description states.",
    note="Column unit is free (bytes, chars or UTF-16) but must be one per file. Form feed excluded. P9999 / file-level labels exempt.", ref="DESIGN.md §3 C05"),
  "C06": dict(cat="exploration", technique=T+"+ exhaustive permutations / partitions: metamorphic oracle (same verdict, codes, location modulo placement)"+F+"",
-   text="Units of <= 5 declarations: all permutations, all partitions into <= 3 files x all file orders must give the canonical verdict (single-fault units: same codes and same (chunk, offset) locations); sets of 6..30 declarations with one file each in random orders; chunks that declare nothing; exhaustive 114-cell scope-leak grid; Project::semantic on fresh projects and `ironplcc check` (files, file + directory) in fresh processes sampled.",
+   text="Units of <= 5 declarations: all permutations, all partitions into <= 3 files x all file orders must give the canonical verdict (single-fault units: same codes and same (chunk, offset) locations); sets of 6..30 declarations with one file each in random orders; chunks that declare nothing; exhaustive 108-cell scope-leak grid and 240-cell statement-context grid; single-fault units next to a not-implemented declaration (verdict only); Project::semantic on fresh projects and `ironplcc check` (files, file + directory) in fresh processes sampled.",
    note="Hash seeds of child processes cannot be chosen; explicit order enumeration at analyze() is the deciding search.", ref="DESIGN.md §3 C06"),
  "C07": dict(cat="exploration", technique="exhaustive enumeration of all digraphs on <= 4 nodes + "+T+"for random graphs <= 12 nodes and large graphs on 40/120/400 nodes (through the binary); oracle = reference DFS cycle test",
-   text="All 66066 digraphs on <= 4 nodes, random ones on 5..12 and large ones on 40/120/400 nodes (chains, fans, layered, sparse), realised as FB instance graphs, type graphs (aliases plain / initialised / of structures, structure elements) and mixed graphs, with bystander declarations, bodies and instance names like declarations: recursion codes (P0010/P0013) exactly when the reference cycle test finds a cycle.",
+   text="All 66066 digraphs on <= 4 nodes, random ones on 5..12 and large ones on 40/120/400 nodes (chains, fans, layered, sparse), realised as FB instance graphs, type graphs (aliases plain / initialised / of structures, structure elements) and mixed graphs, with bystander declarations, bodies and instance names like declarations: recursion codes (P0010/P0013) exactly when the reference cycle test finds a cycle - for the unit as one source and dealt out over two or three sources.",
    note="Edges through ARRAY OF are soft (a cycle only through them is not judged); VAR_IN_OUT edges are not generated.", ref="DESIGN.md §3 C07"),
  "C08": dict(cat="exploration", technique=T+": metamorphic (canonical vs re-spelled layout of the same lexeme stream)"+F+"",
-   text="Same lexeme stream laid out canonically and with random case per keyword / identifier occurrence and random trivia (blanks, tabs, LF, CRLF, comments incl. multi-line / nested-looking / non-ASCII) at every joint: equal libraries and equal analyze() codes.",
+   text="Same lexeme stream laid out canonically and with random case per keyword / identifier occurrence and random trivia (blanks, tabs, LF, CRLF, comments incl. multi-line / nested-looking / non-ASCII, // comments) at every joint, or no white space at all where two lexemes cannot run together: equal libraries and equal analyze() codes.",
    note="Trivia never goes inside literals (IEC forbids white space there). C01 ties the canonical spelling to the expected AST.", ref="DESIGN.md §3 C08"),
  "C09": dict(cat="exploration", technique=T+"+ fixed boundary grid: text-first literal generator with exact reference evaluator"+F+"",
-   text="Structured literal space (integers in 4 bases with boundary magnitudes, reals, durations, dates, times, strings, addresses, booleans): accepted with exactly the reference value, or rejected when unrepresentable.",
+   text="Structured literal space (integers in 4 bases with boundary magnitudes, reals, durations, dates, times, strings, addresses, booleans; 22 malformed shapes, later-edition and foreign duration units, random digit strings beyond 128 bits): accepted with exactly the reference value, or rejected when unrepresentable / malformed.",
    note="f64 reference = std's correctly rounded decimal conversion. Taste bands (year 0 / >= 10000, typed literal beyond its type's range, unit counts beyond 64 bits): reject or exact both pass.", ref="DESIGN.md §3 C09"),
  "C10": dict(cat="exploration", technique=T+": round trip parse -> render -> parse, fixed point"+F+"",
    text="For generated programs the parser accepts: write_to_string output must parse to an equal library (and identical identifier spellings) and re-rendering must be a fixed point.",
    note="Of the 26 renderer defects found on the pinned tree, 19 entries are repaired in /repo (fix: commits, regression witnesses); 7 stay known (scope own: six are pinned by expected files of the repository's rendered-output tests, one needs a dsl field) and the strict oracle runs on the sub-language whose gates are on.", ref="DESIGN.md §3 C10"),
  "C11": dict(cat="exploration", technique="exhaustive enumeration of notification histories (<= 3/4) + "+T+"for random histories <= 40; oracle = fresh-server reference and CLI agreement",
-   text="Over `ironplcc lsp --stdio`: one publishDiagnostics per didOpen/didChange with its URI and version; the last publication equals a fresh server's for the same current contents and carries the (code, line, column) `ironplcc check <dir>` prints.",
+   text="Over `ironplcc lsp --stdio`: one publishDiagnostics per didOpen/didChange with its URI and version; the last publication equals a fresh server's for the same current contents and carries the (code, line, column) `ironplcc check <dir>` prints; a fixed family of 72 histories over diagnostics that relate two documents.",
    note="Diagnostics compared as multisets; P0030 excluded. Random histories include close and reopen, strided version numbers, moved / trimmed / degenerate texts, cross-document name clashes, documents with hundreds of diagnostics, names that need percent-encoding.", ref="DESIGN.md §3 C11"),
  "C12": dict(cat="exploration", technique=T+": random JSON-RPC scripts against the real server binary; oracle = request/response ledger evaluated after exit",
-   text="Random scripts of <= 60 well-formed messages (17 URIs, every id shape, omitted params, client responses with 17 error codes, cancel of ids in flight, didClose) after a handshake whose initialize names no / an existing / a missing / a non-file workspace folder, with and without verbosity flags, then shutdown/exit: every request answered exactly once, no spurious responses or notifications, clean protocol stream, exit status 0.",
+   text="Random scripts of <= 60 well-formed messages (17 URIs, every id shape, omitted params, client responses with 17 error codes, cancel of ids in flight, didClose, all 64 client-to-server method names of LSP 3.17 with and without id, a repeated initialize, content changes with ranges) after a handshake whose initialize names no / an existing / a missing / a non-file workspace folder, with and without verbosity flags, then shutdown/exit: every request answered exactly once, no spurious responses or notifications, clean protocol stream, exit status 0.",
    note="Malformed parameters are outside the property. A server still running 90 s after stdin closed is run again with a 300 s limit; only if it again leaves requests unanswered is that a violation (server-stopped-responding), otherwise inconclusive.", ref="DESIGN.md §3 C12"),
  "C13": dict(cat="exploration", technique=T+": generated file sets presented as files / directory / mixture to the real binary; oracle = agreement of exit status, OK line, coded diagnostics",
-   text="Generated file sets (names with other / no extensions, blanks, non-ASCII, comma, hash; cross-file diagnostics; fault kinds uniform over the rules; with and without verbosity flags): exit 0 <=> OK line <=> no coded diagnostic of any severity; codes are published codes; same exit for every argument order; directory == file list; echo / tokenize exit 0 <=> all files parse / tokenize (in-process reference); split sets (some files named, the others in a directory); 255..512 diagnostics; fixed cases for missing paths, empty directory, unreadable file.",
+   text="Generated file sets (names with other / no extensions, blanks, non-ASCII, comma, hash; cross-file diagnostics; fault kinds uniform over the rules; with and without verbosity flags): exit 0 <=> OK line <=> no coded diagnostic of any severity; codes are published codes; same exit for every argument order; directory == file list; echo / tokenize exit 0 <=> all files parse / tokenize (in-process reference); split sets (some files named, the others in a directory); 255..512 diagnostics; fixed cases for missing paths, empty directory, unreadable file; directories whose entries are symbolic links or cannot be loaded; unmatched text of every length at the end of a file.",
    note="Judges channel agreement only, not the verdict.", ref="DESIGN.md §3 C13"),
  "C14": dict(cat="exploration", technique=T+"+ exhaustive byte insertion (256 x 4): metamorphic across 5 encodings; positions inside the decoded text",
-   text="Programs with non-ASCII comments / strings written in UTF-8, UTF-8+BOM, UTF-16LE/BE+BOM, Windows-1252 (named or reached through a directory, inside mixed-encoding sets, 5..200 KiB large, with BOM-like sequences as first non-ASCII text, edge code points) give identical exit status, (code, line, column) and token listing; every byte value at 4 positions and random binaries: exit 0/1, positions inside the decoded text.",
+   text="Programs with non-ASCII comments / strings written in UTF-8, UTF-8+BOM, UTF-16LE/BE+BOM, Windows-1252 (named or reached through a directory, inside mixed-encoding sets, 5 KiB..2 MiB large, with BOM-like sequences as first non-ASCII text, UTF-8-looking runs of Windows-1252 characters, edge code points) give identical exit status, (code, line, column) and token listing; every byte value at 4 positions, random binaries, byte-order marks followed by malformed content: never the panic status, positions inside the decoded text.",
    note="Decoding cascade re-implemented with encoding_rs as reference.", ref="DESIGN.md §3 C14"),
  "C15": dict(cat="exploration", technique=T+": harness-printed documents through edit histories; oracle = own lexeme table under the LSP relative encoding",
-   text="semanticTokens/full decoded under the relative encoding: strictly increasing, each range exactly one lexeme of the current text (UTF-16 units), compatible legend entry, every identifier / comment / address / keyword / operator lexeme reported; documents after 1..4 versions (close and reopen, truncated, blank, OSCAT headers, positions beyond 65 535) and 20 hand-written texts whose lexemes touch; null on lexical error.",
+   text="semanticTokens/full decoded under the relative encoding: strictly increasing, each range exactly one lexeme of the current text (UTF-16 units), compatible legend entry, every identifier / comment / address / keyword / operator lexeme reported; documents after 1..4 versions with a request after any of them (close and reopen, truncated, blank, OSCAT headers also non-ASCII, // comments, positions beyond 65 535) and 20 hand-written texts whose lexemes touch; null whenever the current text holds generated junk.",
    note="Words the lexer cannot distinguish from identifiers may be variable or keyword; '..' may be keyword.", ref="DESIGN.md §3 C15"),
 }
 checks=[]
